@@ -93,8 +93,8 @@ class BlockState(Generic[_T]):
         locals_[name] = var
         continue
       # Both blocks define this variable, so merge the two sets of bindings.
-      bindings = {b.value: b.condition for b in locals_[name].bindings}
-      for b in var.bindings:
+      bindings = {}
+      for b in locals_[name].bindings + var.bindings:
         if b.value in bindings:
           bindings[b.value] = conditions.Or(bindings[b.value], b.condition)
         else:
